@@ -42,12 +42,13 @@ Section Relevant.
   Qed.
 End Relevant.
 
-(* [sub_acc w t]: w is t with some access events left out (all Lock / Unlock events kept).  The
-   automaton of Atomic.v accepts w whenever it accepts t: an access does not change its state. *)
+(* [sub_acc w t]: w is t with some READ events left out (all Lock / Unlock events and all WRITES
+   kept: a write the source makes and the word does not contain is a mismatch — referee issue I3).
+   The automaton of Atomic.v accepts w whenever it accepts t: an access does not change its state. *)
 Inductive sub_acc : list ev -> list ev -> Prop :=
 | SA_nil : sub_acc [] []
 | SA_keep : forall e w t, sub_acc w t -> sub_acc (e :: w) (e :: t)
-| SA_skip : forall l b w t, sub_acc w t -> sub_acc w (EAcc l b :: t).
+| SA_skip : forall l w t, sub_acc w t -> sub_acc w (EAcc l false :: t).
 
 Lemma sub_acc_refl : forall t, sub_acc t t.
 Proof. induction t; constructor; auto. Qed.
@@ -57,7 +58,7 @@ Proof. induction 1; intros H2; cbn [app]; try constructor; auto. Qed.
 
 Lemma ev_run_sub : forall m L w t, sub_acc w t -> forall s, ev_run m L s t <> None -> ev_run m L s w <> None.
 Proof.
-  induction 1 as [|e w t H IH|l b w t H IH]; intros s Hr.
+  induction 1 as [|e w t H IH|l w t H IH]; intros s Hr.
   - exact Hr.
   - cbn [ev_run] in *. destruct (ev_step m L s e); [apply IH; exact Hr|exact Hr].
   - cbn [ev_run ev_step] in Hr. apply IH.
@@ -163,14 +164,14 @@ Section Finder.
   Variable L : list loc.
   Notation rel := (relevant m L).
 
-  (* consume the event e; an access the pattern does not ask for may be passed over *)
+  (* consume the event e; a READ the pattern does not ask for may be passed over (never a write) *)
   Definition eat (e : ev) (pt : pat) : list pat :=
     if rel e then
       match pt with
       | PEv e' :: r => if ev_eq_dec e e' then [r] else []
       | _ => []
       end ++
-      match e with EAcc _ _ => [pt] | _ => [] end
+      match e with EAcc _ false => [pt] | _ => [] end
     else [pt].
 
   Definition plain (qs : list pat) : list out := map (fun q => (q, false, [])) qs.
@@ -282,7 +283,7 @@ Section Finder.
         exists [PEv e]. split; [reflexivity|]. intros w Hw.
         apply pmatch_ev_inv in Hw. destruct Hw as [w' [-> Hw]]. apply pmatch_nil_inv in Hw. subst w'.
         apply sub_acc_refl.
-      + destruct e as [m'|m'|l b]; try contradiction. destruct H as [<-|[]].
+      + destruct e as [m'|m'|l [|]]; try contradiction. destruct H as [<-|[]].
         exists []. split; [reflexivity|]. intros w Hw. apply pmatch_nil_inv in Hw. subst w.
         constructor. constructor.
     - destruct H as [<-|[]]. exists []. split; [reflexivity|]. intros w Hw.
